@@ -291,6 +291,46 @@ INFO = {
                      "that sends Close and keeps TCP open, the resource stays registered and open for ever", ["C18", "C04", "C03"]),
     "C05-7": ("C05", "for_each (sync): the callback mutex is replaced by a 16-bit ticket lock that compares with `<`: at every "
                      "65536th turn under contention the other thread walks in (or both wait for ever)", ["C05"]),
+    "C01-8": ("C01", "try_decode compares the whole chunk (prefix included) with the payload size: a frame with a k-byte prefix "
+                     "that is 1..k-1 bytes short of complete is taken as complete and split_at panics (e.g. a 65533-byte "
+                     "message read with the 65535-byte buffer)", ["C01", "C02", "C17"]),
+    "C02-8": ("C02", "store_and_decoded_data tests stored+new <= expected (prefix width dropped): with something buffered, a "
+                     "chunk ending 1..w-1 bytes before the end of a frame with a w-byte prefix panics in split_at", ["C02", "C01"]),
+    "C05-8": ("C05", "for_each_async: the callback lock is a flag that the network thread clears after every poll, also after "
+                     "a poll without events while the signal thread holds it: a network event during a signal callback "
+                     "that spans an event-less poll (50 ms tick, half a frame) overlaps it", ["C05"]),
+    "C08-8": ("C08", "receive(): the timer command that wakes the blocked select is dropped (bound to _) and only the rest "
+                     "of the channel is folded: a cancel or a create that wakes a receiver blocked in receive() is lost", ["C08", "C16", "C06"]),
+    "C09-8": ("C09", "for_each_async / enqueue: the cached replay takes the lock and tests is_running() once, before the "
+                     "loop: stop() inside a replayed event does not stop the replay of the rest", ["C09"]),
+    "C12-8": ("C12", "a multicast Udp listener binds the group address instead of the wildcard: a datagram sent to the "
+                     "endpoint a peer saw for it (its unicast address) is dropped by the kernel", ["C12"]),
+    "C13-8": ("C13", "Tcp send(): a write of 0 bytes answers ResourceNotFound: an empty payload on a live raw Tcp connection", ["C13", "C11"]),
+    "C14-8": ("C14", "(close to C17-6) resolve_pending_remote guards Connected(false) with is_remote(): an accepted connection "
+                     "that fails while pending produces Connected(endpoint, false) for an endpoint connect() never returned", ["C14", "C17", "C03"]),
+    "C16-8": ("C16", "the blocked select listens to the timer-command channel only while the timer map is empty: with a "
+                     "long timer already folded, a shorter timer sent while the receiver is blocked does not wake it", ["C16", "C08"]),
+    "C17-8": ("C17", "Ws receive() continues after Error::Capacity: one frame header announcing more than the maximum makes "
+                     "read() fail the same way for ever and the network thread spins", ["C17", "C01"]),
+    "C19-8": ("C19", "the ip:port text is split by hand (port as u16, then the ip): '127.0.0.1:+80' becomes a socket "
+                     "address and '[fe80::1%3]:80' stays a string", ["C19"]),
+    "C04-8": ("C04", "(= C01-6, found again from C04) Ws receive() gives the read event up when a sender holds the state lock: "
+                     "a peer's Close / FIN that arrives while another thread is inside send() is never processed", ["C04", "C01", "C10"]),
+    "C10-8": ("C10", "(= C01-6, found again from C10) Ws receive() with try_lock: messages of the peer that arrive while local "
+                     "threads are inside send() on the same endpoint are stranded", ["C10", "C01"]),
+    "C06-8": ("C06", "next_timer_expiration arms never() when the first deadline is already past at its own clock reading: a "
+                     "timer that expires between ready_event's clock reading and the arming (a long fold of commands "
+                     "widens the window) leaves receive() asleep", ["C06", "C16", "C08"]),
+    "C07-8": ("C07", "next_timer_expiration arms the *latest* pending deadline: with two pending timers a blocking receive "
+                     "sleeps past the first one (receive_timeout answers None while try_receive would return it)", ["C07", "C16", "C08"]),
+    "C11-8": ("C11", "Tcp receive() leaves its read loop after 100 ms with WaitNextEvent: with a slow callback and more than "
+                     "one read buffer already queued, the tail is never read unless new bytes arrive", ["C11", "C01"]),
+    "C03-8": ("C03", "the connected Udp socket's receive() treats recv() == 0 as end of stream: a zero-length datagram from "
+                     "the peer yields Disconnected for a Udp endpoint", ["C03", "C12", "C04"]),
+    "C15-8": ("C15", "enqueue(): Disconnected events go through the priority channel of the queue and overtake earlier "
+                     "events still queued (a peer that connects, sends and closes before enqueue() is called)", ["C15", "C03"]),
+    "C18-8": ("C18", "(= C09-6 in both listener kinds) the signal threads loop on receive_timeout with `while let`: with a "
+                     "producer sending signals every few ms, stop() is not followed by the threads ending", ["C18", "C09"]),
     "C19-5": ("C19", "an ip:port text with port 0 (127.0.0.1:0, [::1]:0) is classified as a string", ["C19"]),
     "C19-1": ("C19", "SocketAddrV6 with non-zero flowinfo/scope_id converted to RemoteAddr: the fields are dropped", ["C19"]),
 }
